@@ -59,9 +59,13 @@ def _calc_spanning_tree ():
   switches = set()
   # Add all links and switches
   for l in core.openflow_discovery.adjacency:
-    adj[l.dpid1][l.dpid2].append(l)
     switches.add(l.dpid1)
     switches.add(l.dpid2)
+    if l.dpid1 == l.dpid2:
+      # A cable between two ports of one switch is never part of a tree
+      # (its ports are not edge ports either, so they don't flood)
+      continue
+    adj[l.dpid1][l.dpid2].append(l)
 
   # Cull links -- we want a single symmetric link connecting nodes
   for s1 in switches:
